@@ -363,6 +363,38 @@ def check_C02(tier, seed):
                        'callee bodies tick the list of their parameters; compared: value/error class, tick log, variables; non-trivial = distinct call transcripts with a non-empty log'
                        % (maxreq, maxopt, tier_n(tier, 1200, 30000), tier_n(tier, 1200, 30000)))
     res.cov['samples'] = sample_cases(cases[::max(1, len(cases) // 3)])
+    # order oracle, independent of the model: a function-like built-in applied to (tick 1 e1) ... (tick n en)
+    # logs 1..n in this order when it returns a value, and a prefix 1..k when an argument or the call fails
+    special = {'and', 'or', 'if', 'progn', 'when', 'unless', 'setq'}
+    ocases = []
+    for name, sig in calls.BUILTINS:
+        if name in special: continue
+        for rep in range(tier_n(tier, 4, 40)):
+            n = len(sig) if rep % 4 else max(1, len(sig) + rng.choice([-1, 1]))
+            args = [['tick', i + 1, calls.arg_of_kind(rng, sig[min(i, len(sig) - 1)])] for i in range(n)]
+            for route in ('direct', 'funcall'):
+                call = ([name] + args) if route == 'direct' else (['funcall', Q(name)] + args)
+                c = Case('o%d' % len(ocases), meta={'n': n, 'name': name, 'exact': n <= len(sig)})
+                c.eval(programs.render_text([['setq', 'htab', ['make-hash-table']]]))
+                c.eval(programs.render_text([call]))
+                ocases.append(c)
+    oimpl = core.run_side(core.TLIMPL_DEBUG, ocases, announce=True)
+    nord = 0
+    for c in ocases:
+        ls = oimpl.get(c.cid, [])
+        if len(ls) < 2: continue
+        _, kind, payload, ticks = core.parse_line(ls[1])
+        ids = [] if ticks in ('-', None, '?') else [int(x.split(':')[0]) for x in ticks.split(',')]
+        nord += 1
+        ok = ids == list(range(1, len(ids) + 1)) and (kind != 'V' or not c.meta['exact'] or len(ids) == c.meta['n'])
+        if kind in ('A', 'H', 'P'): ok = False
+        if not ok:
+            res.violation('order-oracle', {'requests': c.readable(), 'impl': decode_line(ls[1]),
+                                           'why': 'arguments of a function-like built-in not evaluated once each, left to right'})
+    res.cov['order_oracle_cases'] = nord
+    res.cov['evaluations'] += nord
+    res.cov['rule'] += ('; order oracle (implementation only): %d calls of every function-like built-in, direct and through funcall, with (tick i ..) '
+                        'arguments: the log must be 1..n in order for a value (surplus arguments beyond the signature, which tulisp ignores, excepted) and a prefix for an error' % nord)
     for d in res.pending:
         res.violation('disagreement', d, no_input=not oracle_confirms(d))
     return res.finish(gate)
